@@ -248,19 +248,24 @@ def harness_solution(f, tau, X, admittance, add_c, add_l):
 
 
 def placeholder_artefact(f, Z, test, admittance, add_c):
-    """Size (relative to |Z|) of the error that the hard-coded placeholder constants of the matrix-inversion real test
-    leave in its result: capacitance 1e-18 (F, or 1/F in the impedance form) and, for admittance, inductance -1e18 H."""
-    if test != "real-inv":
-        return 0.0
+    """Size (relative to |Z|) of the error that the hard-coded placeholder constants of the matrix-inversion tests leave
+    in their result (matrix_inversion._real_test / _update_circuit; the later stage subtracts the placeholder's
+    response from the data and its coefficient REPLACES the placeholder, so the final value is off by the placeholder):
+      real-inv:       1/C (Z) resp. C (Y) parked at 1e-18; for Y the inductance at -1e18 H
+      imaginary-inv:  for Y the parallel resistance parked at 1e18 ohm (its column is zero in the imaginary system)
+    """
     w = 2 * np.pi * np.asarray(f, dtype=float)
     aZ = np.abs(np.asarray(Z))
     a = 0.0
-    if admittance:
-        a = float(1e-18 * (aZ / w).max())
-        if add_c:
-            a = max(a, float(1e-18 * (w * aZ).max()))
-    elif add_c:
-        a = float(1e-18 * (1.0 / (w * aZ)).max())
+    if test == "real-inv":
+        if admittance:
+            a = float(1e-18 * (aZ / w).max())
+            if add_c:
+                a = max(a, float(1e-18 * (w * aZ).max()))
+        elif add_c:
+            a = float(1e-18 * (1.0 / (w * aZ)).max())
+    elif test == "imaginary-inv" and admittance:
+        a = float(1e-18 * aZ.max())
     return a
 
 
